@@ -1,6 +1,6 @@
 """runs the REAL TAPS methylation caller for C14.
 
-payload: {'cases': [case...], 'table': bool}
+payload: {'cases': [case...], 'histories': [{'contigs': [seq...], 'refkind':..., 'mols': [case without ref + 'contig': index]}], 'table': bool}
 case: {'ref': str, 'refkind': 'pysam'|'cached'|'cachednh', 'klass': 'chic'|'nla', 'taps_strand': 'F'|'R'|None(class default),
        'unsafe': bool, 'invert': bool, 'kw': {dove_R1_distance, dove_R2_distance, min_phred_score} or None,
        'frags': [[readspec|None, readspec|None], ...]}
@@ -81,10 +81,11 @@ def abstract_read(r):
 TAGS = ['MC', 'uC', 'sZ', 'sz', 'sX', 'sx', 'sH', 'sh']
 
 
-def run_case(case, contig, header, refhandles):
+def run_case(case, contig, header, refhandles, taps=None):
     from singlecellmultiomics.molecule import TAPSNlaIIIMolecule, TAPSCHICMolecule, TAPS
     from singlecellmultiomics.fragment import NlaIIIFragment, CHICFragment
-    taps = TAPS()
+    if taps is None:
+        taps = TAPS()
     reference = refhandles[case['refkind']]
     frags = []
     for i, (s1, s2) in enumerate(case['frags']):
@@ -152,15 +153,22 @@ def handler(p):
         if p.get('table'):
             out['table'] = dump_table()
         cases = p.get('cases', [])
-        if cases:
+        hists = p.get('histories', [])
+        if cases or hists:
+            from singlecellmultiomics.molecule import TAPS
             scratch = os.environ.get('SCMO_SCRATCH', '.')
             fa = os.path.join(scratch, 'ref.fa')
+            sq = []
             with open(fa, 'w') as f:
                 for i, c in enumerate(cases):
                     f.write('>c%d\n%s\n' % (i, c['ref']))
+                    sq.append({'SN': 'c%d' % i, 'LN': len(c['ref'])})
+                for i, h in enumerate(hists):
+                    for j, seq in enumerate(h['contigs']):
+                        f.write('>h%d_%d\n%s\n' % (i, j, seq))
+                        sq.append({'SN': 'h%d_%d' % (i, j), 'LN': len(seq)})
             pysam.faidx(fa)
-            header = pysam.AlignmentHeader.from_dict(
-                {'HD': {'VN': '1.6'}, 'SQ': [{'SN': 'c%d' % i, 'LN': len(c['ref'])} for i, c in enumerate(cases)]})
+            header = pysam.AlignmentHeader.from_dict({'HD': {'VN': '1.6'}, 'SQ': sq})
             handle = pysam.FastaFile(fa)
             refhandles = {'pysam': handle, 'cached': CachedFasta(handle), 'cachednh': CachedFastaNoHandle(fa)}
             res = []
@@ -170,6 +178,19 @@ def handler(p):
                 except BaseException as e:
                     res.append({'harness_error': '%s: %s' % (type(e).__name__, e)})
             out['cases'] = res
+            hres = []
+            for i, h in enumerate(hists):
+                # ONE TAPS object (and one reference handle) for all molecules of the history, as in the taggers
+                taps = TAPS()
+                rs = []
+                for m in h['mols']:
+                    c = dict(m); c['ref'] = h['contigs'][m['contig']]; c['refkind'] = h['refkind']
+                    try:
+                        rs.append(run_case(c, 'h%d_%d' % (i, m['contig']), header, refhandles, taps=taps))
+                    except BaseException as e:
+                        rs.append({'harness_error': '%s: %s' % (type(e).__name__, e)})
+                hres.append(rs)
+            out['histories'] = hres
     finally:
         sys.stdout = old
     return out
